@@ -124,6 +124,10 @@ def alias(prog, rep, spec, tag):
     c12.byte_ranges(prog, rep, tag, "C14.range")
 
 
+def q_is_field(b, roots, name):
+    return has_root(roots, "field", "EepromRange", name) and not has_root(roots, "binop") and not any(x[0] == "field" and x[1] == "EepromRange" and x[2] != name and x[2] in ("byte_pos", "end") for x in roots)
+
+
 def range_write(prog, rep, tag):
     P = "C14.write"
     callers = {c.body.root_short for c in prog.calls_of("EepromDataProvider::write_word") if c.body.crate == "ethercrab"}
@@ -143,6 +147,18 @@ def range_write(prog, rep, tag):
                     ne_t = cd.false_target() if cd.op == "Eq" else cd.true_target()
                     if ww[0].bb in q.edge_dominated(b, cd.bb, ne_t):
                         g = True
+        # ... or written as `byte_pos < end`
+        for cd in q.conds(b):
+            if cd.kind != "cmp" or cd.op not in ("Lt", "Gt", "Le", "Ge"):
+                continue
+            lp, le = q.is_field_read(b, cd.lhs, "EepromRange", "byte_pos"), q.is_field_read(b, cd.lhs, "EepromRange", "end")
+            rp, re2 = q.is_field_read(b, cd.rhs, "EepromRange", "byte_pos"), q.is_field_read(b, cd.rhs, "EepromRange", "end")
+            op = cd.op if (lp and re2) else ({"Lt": "Gt", "Gt": "Lt", "Le": "Ge", "Ge": "Le"}[cd.op] if (le and rp) else None)
+            if op is None:
+                continue
+            t = cd.true_target() if op == "Lt" else (cd.false_target() if op == "Ge" else None)
+            if t is not None and ww[0].bb in q.edge_dominated(b, cd.bb, t):
+                g = True
         d["stops-at-end"] = g
         d["word-address"] = has_root(Prov(b).of_operand(ww[0].args[1]), "call", "EepromRange::word_pos")
         # odd byte padded with zero: an array literal [first, 0]
